@@ -110,6 +110,26 @@ func (f *Fn) lockFlow() *lockFlow {
 		}
 		op := w.lockOpOf(c)
 		if op == nil {
+			// wrapper functions that return with a lock held (compactDef.lockLevels) or release a
+			// lock taken by their caller (unlockLevels): treated as acquire/release at the call site
+			if cal := w.calleeFn(f, c); cal != nil && cal != f {
+				if _, isDefer := w.parentOf(c).(*ast.DeferStmt); isDefer {
+					return true
+				}
+				if _, isGo := w.parentOf(c).(*ast.GoStmt); isGo {
+					return true
+				}
+				acq, rel := cal.lockSummary()
+				v := g.VertexOf(c)
+				if v >= 0 {
+					for l, mode := range acq {
+						lf.ops[v] = append(lf.ops[v], &lockOp{Lock: l, Acquire: true, Read: mode == 1, Call: c})
+					}
+					for _, l := range rel {
+						lf.ops[v] = append(lf.ops[v], &lockOp{Lock: l, Acquire: false, Call: c})
+					}
+				}
+			}
 			return true
 		}
 		if _, isDefer := w.parentOf(c).(*ast.DeferStmt); isDefer {
@@ -281,4 +301,67 @@ func (w *World) lockName(o types.Object) string {
 		}
 	}
 	return o.Name()
+}
+
+var lockSummaryMemo = map[*Fn][2]interface{}{}
+
+// lockSummary recognises lock wrappers syntactically: a function that acquires lock L at the top
+// level of its body and never releases L returns with L held (net acquire); a function that
+// releases L at the top level of its body and never acquires L releases its caller's lock.
+func (f *Fn) lockSummary() (map[types.Object]int, []types.Object) {
+	if m, ok := lockSummaryMemo[f]; ok {
+		return m[0].(map[types.Object]int), m[1].([]types.Object)
+	}
+	w := f.W
+	acqTop := map[types.Object]int{}
+	acqAny := map[types.Object]bool{}
+	relTop := map[types.Object]bool{}
+	relAny := map[types.Object]bool{}
+	f.walk(func(n ast.Node) bool {
+		c, ok := n.(*ast.CallExpr)
+		if !ok {
+			return true
+		}
+		op := w.lockOpOf(c)
+		if op == nil {
+			return true
+		}
+		top := false
+		if es, ok := w.parentOf(c).(*ast.ExprStmt); ok && w.parentOf(es) == ast.Node(f.Body) {
+			top = true
+		}
+		_, isDefer := w.parentOf(c).(*ast.DeferStmt)
+		if op.Acquire {
+			acqAny[op.Lock] = true
+			if top {
+				mode := 2
+				if op.Read {
+					mode = 1
+				}
+				if acqTop[op.Lock] == 0 || mode < acqTop[op.Lock] {
+					acqTop[op.Lock] = mode
+				}
+			}
+		} else {
+			relAny[op.Lock] = true
+			if top || isDefer {
+				relTop[op.Lock] = top
+			}
+		}
+		return true
+	})
+	acq := map[types.Object]int{}
+	for l, mode := range acqTop {
+		if !relAny[l] {
+			acq[l] = mode
+		}
+	}
+	var rel []types.Object
+	for l, top := range relTop {
+		if top && !acqAny[l] {
+			rel = append(rel, l)
+		}
+	}
+	lockSummaryMemo[f] = [2]interface{}{acq, rel}
+	return acq, rel
 }
